@@ -4,6 +4,7 @@ import (
 	"fmt"
 	"go/types"
 	"math"
+	"regexp"
 	"strconv"
 	"strings"
 
@@ -17,6 +18,8 @@ import (
 var intrinsics = map[string]externalFn{}
 
 func reg(name string, f externalFn) { intrinsics[name] = f }
+
+type hostRegexp struct{ re *regexp.Regexp }
 
 // nativeFn wraps a Go closure as a guest function value.
 type nativeFn struct {
@@ -288,6 +291,40 @@ func init() {
 		return normStr(out)
 	})
 
+	// ---- regexp: opaque host object; matching only on concrete input ----
+	reg("regexp.MustCompile", func(fr *frame, a []value) value {
+		pat, ok := a[0].(string)
+		if !ok {
+			panic(unsupported("regexp.MustCompile of a symbolic pattern"))
+		}
+		var cell value = hostRegexp{regexp.MustCompile(pat)}
+		return &cell
+	})
+	reMatch := func(fr *frame, a []value) value {
+		re := (*a[0].(*value)).(hostRegexp).re
+		switch x := a[1].(type) {
+		case string:
+			return re.MatchString(x)
+		case []value:
+			bs := make([]byte, len(x))
+			for k, b := range x {
+				c, ok := b.(uint8)
+				if !ok {
+					panic(unsupported("regexp match on symbolic input"))
+				}
+				bs[k] = c
+			}
+			return re.Match(bs)
+		}
+		panic(unsupported("regexp match on symbolic input"))
+	}
+	reg("(*regexp.Regexp).MatchString", reMatch)
+	reg("(*regexp.Regexp).Match", reMatch)
+	reg("time.Parse", func(fr *frame, a []value) value {
+		res := fr.fn.Signature.Results()
+		return tuple{zero(res.At(0).Type()), iface{}}
+	})
+
 	// ---- time / os / environment: not available ----
 	reg("time.Now", func(fr *frame, a []value) value { panic(unsupported("time.Now")) })
 	reg("os.Getenv", func(fr *frame, a []value) value { return "" })
@@ -431,7 +468,7 @@ func (i *interpreter) writeTo(fr *frame, w value, s value) value {
 	bs := strBytes(s)
 	buf := make([]value, len(bs))
 	copy(buf, bs)
-	m := i.sh.prog.LookupMethod(wi.t, nil, "Write")
+	m := i.sh.findMethod(wi.t, "Write")
 	if m == nil {
 		panic(unsupported("writeTo: no Write method on " + wi.t.String()))
 	}
